@@ -65,3 +65,21 @@ def badRows (T : Tables) : List (String × String) :=
   T.segments.flatMap (fun e => (e.rows.filter (fun r => !fieldRowOk T r)).map (fun r => (e.name, r.name)))
 
 end Hl7.WF
+
+namespace Hl7.WF
+open Hl7.G
+/-- C14 (table side): the rows of a segment have pairwise distinct names, so looking a row up by its own
+    name finds that row; and a long name that is unique in the segment does not collide with any row name -/
+def namesDistinct : List Row → Bool
+  | [] => true
+  | r :: rs => !(rs.any (·.name == r.name)) && namesDistinct rs
+
+def longOk (rows : List Row) (r : Row) : Bool :=
+  match r.long with
+  | some l => !(rows.any (·.name == l))
+  | none => true
+
+def segAddressable (e : Entry) : Bool := namesDistinct e.rows && e.rows.all (longOk e.rows)
+
+def structAddressable (T : Tables) : Bool := T.structs.all segAddressable
+end Hl7.WF
